@@ -228,7 +228,7 @@ def run(ctx, model):
                 ask("slc-read-request", "slc.readreq %s %d" % (sx.name(tag), tns), "ok " + sx.hexb(pccc), tag)
             if not got:
                 ctx.violation("existing-address-not-readable:" + kind, case, "Tag %r" % (got,))
-            elif got.value != want and not (isinstance(want, float) and abs(got.value - want) < 1e-30):
+            elif got.value != want and not (isinstance(want, float) and isinstance(got.value, (int, float)) and abs(got.value - want) < 1e-30):
                 ctx.violation("read-wrong-value:" + kind + ":" + t, case, "expected %r got %r" % (want, got.value))
             # a bit address with an element count (`N7:0/3{2}`): if the driver accepts the write it must do what it reports
             if kind == "bit" and t in ("N", "B") and "/" in tag and ":" in tag and rng.random() < 0.25 and e + 2 <= len(files[key]) // ELEM[t]:
